@@ -139,6 +139,26 @@ def settings_are_inputs(ctx, rule='COMMIT'):
                 if isinstance(v, str) and v in names:
                     ctx.violation(rule, f"{spec} does not write the setting `{v}`", f"`{norm(st)[:70]}`",
                                   key=f"{rule}|{spec}|writes-setting|{v}", where=common.loc(fi, st))
+        # ... nor rewrite the Config object the description was given (it may be shared with other objects)
+        cfg_alias = {'self.config'}
+        for st in walk_local(fi.node):
+            if isinstance(st, ast.Assign) and len(st.targets) == 1 and isinstance(st.targets[0], ast.Name) \
+                    and norm(st.value) == 'self.config':
+                cfg_alias.add(st.targets[0].id)
+        for st in walk_local(fi.node):
+            hit = None
+            if isinstance(st, (ast.Assign, ast.AugAssign)):
+                for t in (st.targets if isinstance(st, ast.Assign) else [st.target]):
+                    if isinstance(t, ast.Attribute) and norm(t.value) in cfg_alias:
+                        hit = st
+            if isinstance(st, ast.Call) and dotted(st.func) == 'setattr' and st.args and norm(st.args[0]) in cfg_alias:
+                hit = st
+            if hit is not None:
+                ctx.violation(rule, f"{spec} does not rewrite the object's Config",
+                              f"`{norm(hit)[:70]}` changes the Config object held in `.config` (no copy is made): the override given "
+                              f"for ONE call - even with commit=False - stays in `.config`, is handed to every later parse and "
+                              f"parse_tracts(), and shows up in every other object that was created with the same Config",
+                              key=f"{rule}|{spec}|rewrites-config", where=common.loc(fi, hit))
         ctx.ok(rule, f"{spec} writes none of its {len(names)} settings")
     ctx.floor('methods examined for writes to settings', n, 4)
 
